@@ -276,7 +276,9 @@ class TraceFS(AbstractFileSystem):
     def _open(self, path, mode="rb", block_size=None, autocommit=True, cache_options=None, **kwargs):
         path = norm(path)
         if "r" not in mode:
-            raise NotImplementedError("vtrace is read-only")
+            # a reader has no business writing into the product's store: observed, and refused the way a read-only bucket refuses it
+            _emit({"e": "write-attempt", "f": base(path), "path": path, "mode": mode})
+            raise PermissionError(13, "the tracing store is read-only (write attempt observed)", path)
         with _lock:
             if path not in STORE:
                 raise _missing(path)
